@@ -21,7 +21,7 @@ type progAlphabet struct {
 	macro  bool     // Concat([i,j],0).Slice([{1,3}])
 }
 
-var fullAlphabet = progAlphabet{scales: []float64{2}, unary: []string{"Sin", "Exp"}, sym: []string{"Add", "Mul"}, asym: []string{"Sub"}, macro: true}
+var fullAlphabet = progAlphabet{scales: []float64{2, 0}, unary: []string{"Sin", "Exp"}, sym: []string{"Add", "Mul"}, asym: []string{"Sub"}, macro: true}
 var smallAlphabet = progAlphabet{scales: []float64{2}, sym: []string{"Add", "Mul"}}
 
 // enumPrograms calls f for every straight-line program with 1..maxOps
